@@ -470,7 +470,7 @@ def oracle_run(suite, seed, tier, feats=('v3', 'v2', 'alt')):
                 if not hexe:
                     res['errors'].append("harness build failed (%s): %s" % (feat, err[-1500:]))
                     continue
-                for su in (suite, 'win', 'pair'):
+                for su in (suite, 'win', 'pair', 'tri'):
                     fails, st = oracle.run_oracle(panels_for(feat), feat, su, seed, hexe, mexe, os.path.join(odir, feat))
                     res['fails'] += fails
                     res['cases'] += st['cases']
